@@ -158,6 +158,7 @@ func runC18(r *Report) {
 	c18R3(r)
 	// the global defaults of the switches come from the command line: nothing may freeze them at package initialisation
 	c08FlagsAtInit(r, "R4")
+	c18CodecAddsNothing(r, "R1")
 	_ = p
 }
 
@@ -382,6 +383,7 @@ func c18R1(r *Report) {
 					r.Check(owner.Name() == sp[1] || (fetcher != nil && relPkg(owner) == "tor" && p.inUnitOf(owner, fetcher)), "R1", "webseed."+sp[0]+"/called-from/"+fname(cs.Parent()), cs.Pos(), "called by its fetcher", "webseed."+sp[0]+" is called from "+fname(cs.Parent())+": a web-seed contact outside the gated fetcher")
 				}
 			}
+			c18OneRequest(r, "R1")
 		}
 	}
 	// ---- (d) peer.Run identity producers, and dht.Ping
@@ -853,4 +855,234 @@ func c18R3(r *Report) {
 		}
 	}
 	r.Sentinel("R3", len(names), 4)
+}
+
+
+// c18OneRequest: the web-seed gate is evaluated once, by the event loop, when a fetch is scheduled; the fetcher runs
+// in its own goroutine and cannot read the setting.  What the gate covers is therefore one pass over the scheduled
+// range: the fetcher issues each request once, without waiting.  A fetcher that sleeps, or that issues a second
+// request after the first (a retry), contacts the web seed at a time the gate never looked at — after the user has
+// turned web seeds off.
+func c18OneRequest(r *Report, rule string) {
+	p := r.P
+	gets := map[*ssa.Function]bool{}
+	for _, nm := range []string{"GetRight.Get", "Hoffman.Get"} {
+		if g := p.Func("webseed", nm); g != nil {
+			gets[g] = true
+		}
+	}
+	isTimed := func(c *ssa.Call) string {
+		h := c.Call.StaticCallee()
+		if h == nil || h.Pkg == nil || h.Pkg.Pkg.Path() != "time" {
+			return ""
+		}
+		switch h.Name() {
+		case "Sleep", "After", "NewTimer", "Tick", "NewTicker", "AfterFunc":
+			return "time." + h.Name()
+		case "Reset":
+			return "Timer.Reset"
+		}
+		return ""
+	}
+	for _, nm := range []string{"webseedGR", "webseedH"} {
+		f := p.Func("tor", nm)
+		if f == nil {
+			continue
+		}
+		// (a) the fetcher and the functions of package tor it calls do not wait on the clock
+		seen := map[*ssa.Function]bool{}
+		var timed ssa.Instruction
+		what := ""
+		var walk func(g *ssa.Function, d int)
+		walk = func(g *ssa.Function, d int) {
+			if seen[g] || d > 6 || g.Blocks == nil || timed != nil {
+				return
+			}
+			seen[g] = true
+			allInstrs(g, func(in ssa.Instruction) {
+				c, ok := in.(*ssa.Call)
+				if !ok || timed != nil {
+					if mc, isMC := in.(*ssa.MakeClosure); isMC {
+						walk(mc.Fn.(*ssa.Function), d+1)
+					}
+					return
+				}
+				if w := isTimed(c); w != "" {
+					timed, what = in, w
+					return
+				}
+				if h := c.Call.StaticCallee(); h != nil && !c.Call.IsInvoke() && relPkg(h) == "tor" {
+					walk(h, d+1)
+				}
+			})
+		}
+		walk(f, 0)
+		r.Fn(f)
+		msg := ""
+		pos := f.Pos()
+		if timed != nil {
+			pos = timed.Pos()
+			msg = fmt.Sprintf("%s, run by the web-seed fetcher %s, waits on the clock (%s): what it requests afterwards is requested at a time when web seeds may have been turned off — the gate was evaluated only when the fetch was scheduled", fname(timed.Parent()), nm, what)
+		}
+		r.Check(timed == nil, rule, nm+"/fetcher-does-not-wait", pos, "no timer or sleep on the fetcher's paths", msg)
+		// (b) no request after a request, except by moving on to the next part of the range (a loop iteration)
+		var sites []*ssa.Call
+		allInstrs(f, func(in ssa.Instruction) {
+			if c, ok := in.(*ssa.Call); ok && !c.Call.IsInvoke() && gets[c.Call.StaticCallee()] {
+				sites = append(sites, c)
+			}
+		})
+		loops := naturalLoops(f)
+		for _, e2 := range sites {
+			var first *ssa.Call
+			for _, e1 := range sites {
+				if e1 == e2 {
+					continue
+				}
+				heads := map[*ssa.BasicBlock]bool{}
+				for _, l := range loops {
+					if l.Blocks[e1.Block()] {
+						heads[l.Head] = true
+					}
+				}
+				seenB := map[*ssa.BasicBlock]bool{}
+				var scan func(b *ssa.BasicBlock, idx int) bool
+				scan = func(b *ssa.BasicBlock, idx int) bool {
+					for _, in := range b.Instrs[idx:] {
+						if in == ssa.Instruction(e2) {
+							return true
+						}
+					}
+					for _, s2 := range b.Succs {
+						if !seenB[s2] && !heads[s2] {
+							seenB[s2] = true
+							if scan(s2, 0) {
+								return true
+							}
+						}
+					}
+					return false
+				}
+				if scan(e1.Block(), instrIndex(e1)+1) {
+					first = e1
+					break
+				}
+			}
+			msg := ""
+			if first != nil {
+				msg = fmt.Sprintf("this request is issued after the one at %s in the same pass (a retry): it goes out at a time the web-seed gate never looked at, possibly after web seeds were turned off for the torrent", p.Fset.Position(first.Pos()))
+			}
+			r.Check(first == nil, rule, nm+"/one-request-per-part", e2.Pos(), "no other request of the same pass precedes this one", msg)
+		}
+	}
+}
+
+// c18CodecAddsNothing: peer.Run leaves Version, Port and the addresses out of the extended handshake of a proxied
+// torrent; that only helps if the encoder sends what the message says and nothing more.  Every value stored into the
+// identity fields of the wire dictionary (extensionInfo.Version/Port/IPv4/IPv6) derives from the field of the same
+// name of the Extended0 message being written, or is the zero value.
+func c18CodecAddsNothing(r *Report, rule string) {
+	p := r.P
+	ei := p.Named("protocol", "extensionInfo")
+	if !r.Anchor(rule, "protocol.extensionInfo", ei != nil) {
+		return
+	}
+	ident := map[string]bool{"Version": true, "Port": true, "IPv4": true, "IPv6": true}
+	isZero := func(v ssa.Value) bool {
+		c, ok := v.(*ssa.Const)
+		if !ok {
+			return false
+		}
+		if c.Value == nil {
+			return true
+		}
+		if k, okk := constInt(c); okk {
+			return k == 0
+		}
+		return c.Value.ExactString() == `""`
+	}
+	var fromMsg func(v ssa.Value, name string, d int) bool
+	fromMsg = func(v ssa.Value, name string, d int) bool {
+		if d > 8 || v == nil {
+			return false
+		}
+		if isZero(v) {
+			return true
+		}
+		if fv, base := loadedFieldAny(v); fv != nil && base != nil {
+			return fv.Name() == name && typeIs(derefType(base.Type()), modPath+"/protocol", "Extended0")
+		}
+		switch x := v.(type) {
+		case *ssa.Convert:
+			return fromMsg(x.X, name, d+1)
+		case *ssa.ChangeType:
+			return fromMsg(x.X, name, d+1)
+		case *ssa.Slice:
+			return fromMsg(x.X, name, d+1)
+		case *ssa.Phi:
+			for _, e := range x.Edges {
+				if !fromMsg(e, name, d+1) {
+					return false
+				}
+			}
+			return true
+		case *ssa.Call:
+			// m.IPv6.AsSlice(), netip.Addr methods and other conversions of the one value
+			if x.Call.IsInvoke() || len(x.Call.Args) == 0 {
+				return false
+			}
+			h := x.Call.StaticCallee()
+			if h == nil || h.Pkg == nil || strings.HasPrefix(h.Pkg.Pkg.Path(), modPath) && h.Blocks == nil {
+				return false
+			}
+			for _, a := range x.Call.Args {
+				if !fromMsg(a, name, d+1) {
+					return false
+				}
+			}
+			return true
+		case *ssa.UnOp:
+			// a spilled value receiver: t = local netip.Addr; *t = m.IPv6; t.AsSlice()
+			if al, ok := x.X.(*ssa.Alloc); ok && x.Op.String() == "*" {
+				return fromMsg(al, name, d+1)
+			}
+		case *ssa.Alloc:
+			n := 0
+			for _, ref := range *x.Referrers() {
+				if st, ok := ref.(*ssa.Store); ok && st.Addr == ssa.Value(x) {
+					n++
+					if !fromMsg(st.Val, name, d+1) {
+						return false
+					}
+				}
+			}
+			return n > 0
+		}
+		return false
+	}
+	n := 0
+	for _, f := range p.SrcFuncs() {
+		if !strings.HasPrefix(funcPkgPath(f), modPath) {
+			continue
+		}
+		allInstrs(f, func(in ssa.Instruction) {
+			st, ok := in.(*ssa.Store)
+			if !ok {
+				return
+			}
+			fa, ok := st.Addr.(*ssa.FieldAddr)
+			if !ok {
+				return
+			}
+			fv := fieldVar(fa)
+			if fv == nil || !ident[fv.Name()] || namedOf(derefType(fa.X.Type())) != ei {
+				return
+			}
+			n++
+			r.Fn(f)
+			r.Check(fromMsg(st.Val, fv.Name(), 0), rule, fmt.Sprintf("%s/extensionInfo.%s-from-the-message", fname(f), fv.Name()), st.Pos(), "the wire field carries the message's field of the same name, or nothing",
+				fmt.Sprintf("the encoder puts into the handshake's %s field a value that does not come from the message's %s: a proxied torrent, whose handshake leaves the field empty on purpose, reveals it all the same", fv.Name(), fv.Name()))
+		})
+	}
+	r.Sentinel(rule+".codec-identity", n, 4)
 }
